@@ -323,7 +323,7 @@ PROPS['C18']['rule'] = PROPS['C18']['rule'] + (' PLUS the unmodified psa-dhcpd b
 
 # the hook script of the real client as real child processes (harness/hook_test.go)
 PROPS['C15']['tests'] = list(PROPS['C15']['tests']) + ['TestC15Hook']
-PROPS['C15']['direct_files'] = list(PROPS['C15']['direct_files']) + ['c15hook']
+PROPS['C15']['direct_files'] = list(PROPS['C15']['direct_files']) + ['c15hook', 'c15monotonic']
 PROPS['C19']['tests'] = list(PROPS['C19']['tests']) + ['TestC19Hook']
 
 # replies that cannot be sent (harness/server_stories_test.go TestC05Faults): judged directly, for C05 and C01
